@@ -10,6 +10,18 @@ open CaddyModel.Lifecycle
 /-- who answers a fresh connection: (address, tag) of every open socket -/
 def answers (s : State) : List (Nat × Nat) := s.socks.map fun k => (k.addr, k.tag)
 
+/-- who is REACHABLE where: a fresh connection to a socket (a TCP address, or the unix socket
+    file) is answered by one of the open descriptors of that socket — the permission-bit spelling a
+    config used for the unix socket plays no role (`sockId`) -/
+def reach (s : State) : List (Nat × Nat) := s.socks.map fun k => (sockId k.addr, k.tag)
+
+/-- the permission bits of the unix socket FILE, as the property wants them: those asked for by
+    the most recently bound descriptor of the socket that is still open (none: no such file). A
+    config that is rejected closes what it bound, so its bits must go with it. -/
+def fileMode (s : State) : Option Nat :=
+  ((s.socks.filter fun k => k.addr ≥ 8).getLast?).map fun k =>
+    if k.addr = 9 then 0o600 else if k.addr = 10 then 0o660 else 0o200
+
 /-- what a client of the server can see: the config read back through the admin API and who
     answers on which address (the listenerPool count of an address is the number of entries) -/
 structure Obs where
